@@ -472,7 +472,7 @@ func c17Merge(job string, sinkEv []c17Ev, logs []c10LogRec) []c17Ev {
 		case strings.Contains(l.Msg, "completed, but errors occurred") && c17HasValue(l.Fields, job):
 			// handleJobError logs title and id as a key/value pair (Warnw with a format string)
 			evs = append(evs, c17Ev{Seq: l.Seq, Ns: l.Ns, Kind: "end", Msg: "failed-late"})
-		case strings.HasPrefix(l.Msg, "re-running job"):
+		case strings.HasPrefix(l.Msg, "re-running job") && strings.Contains(l.Msg, "("+job+")"):
 			evs = append(evs, c17Ev{Seq: l.Seq, Ns: l.Ns, Kind: "rerun-log", Msg: l.Msg})
 		}
 	}
